@@ -43,7 +43,11 @@ class StubScenario:
         inl = {f"{ST}.{x}" for x in inline} | {"monkeytype.typing.make_iterator", "monkeytype.typing.make_generator"}
         # private module-level helpers of stubs.py (an extracted piece of a public function) are interpreted with it
         inl |= {f.fq for f in repo.module(ST).functions.values() if f.cls is None and f.qualname.startswith("_")}
+        # ... and so are private (non-dunder) methods of its classes, called on instance records
+        inl |= {f.fq for f in repo.module(ST).functions.values() if f.cls is not None and f.qualname.split(".")[-1].startswith("_")
+                and not f.qualname.split(".")[-1].startswith("__")}
         self.ri = RepoInterp(repo, self.fi, inline=inl, call_hook=self.call_hook, may_fork=(), heap=True, max_depth=16)
+        self.ri.dispatch_instances = True
         self.ri.on_attr = self.on_attr  # type: ignore[method-assign]
         self.ri.interp.on_attr = self.on_attr
         self.ri.on_subscript = self.on_subscript  # type: ignore[method-assign]
